@@ -1,6 +1,7 @@
 import Gonuts.Lemmas.MintSeq
 import Gonuts.Props.C02
 import Gonuts.Props.C06
+import Gonuts.Lemmas.MintConc
 /-!
   C03 — a mint quote is issued at most once per payment, never before it is paid (sequential histories; the model is
   the mint after F11: the invoice watcher only moves UNPAID → PAID).
@@ -291,5 +292,64 @@ theorem at_most_once (cx : Cx) (qid : Int) (outs : List BMsg) (sig : QSig) (s s'
         (evs.foldl (runEvt cx) s', .error eAlreadyIssued) := by
   obtain ⟨q, hq, hi⟩ := issued_after_success cx qid outs sig s s' sigs h
   exact ⟨q, hq, issued_refuses cx q.id outs2 sig2 _ (issued_stays_issued cx s' q.id hi evs)⟩
+
+/-! ## Concurrent mint requests, polls and the invoice watcher
+
+  What holds under EVERY interleaving / fault / kill history is storage-level: a blinded message is signed at most
+  once and a stored signature is never lost or replaced.  The request-level statement "at most one issuance per
+  payment however requests, polls and the notification interleave" is FALSE of the code (`schedules_full_false`):
+  `MintTokens` reads PAID and writes PENDING in two separate calls, the watcher reads UNPAID and writes PAID in two
+  separate calls.  It holds when the requests do not overlap (`at_most_once` above). -/
+
+theorem signed_once_schedule (c : CSess) (evts : List CEvt) (h : (c.s.w.db.sigs.map (·.b)).Nodup) :
+    ((runCEvts c evts).s.w.db.sigs.map (·.b)).Nodup := runCEvts_db sigs_nodup_db c evts h
+
+theorem signature_kept_schedule (row : BSig) (c : CSess) (evts : List CEvt) (h : row ∈ c.s.w.db.sigs) :
+    row ∈ (runCEvts c evts).s.w.db.sigs := runCEvts_db (sigs_mono_db row) c evts h
+
+/-- A quote keeps its amount, invoice and NUT-20 key under any interleaving. -/
+theorem quote_terms_fixed_schedule (q : MintQ) (c : CSess) (evts : List CEvt) (h : q ∈ c.s.w.db.mintQ) :
+    ∃ q' ∈ (runCEvts c evts).s.w.db.mintQ, q'.id = q.id ∧ q'.amount = q.amount ∧ q'.hash = q.hash ∧ q'.pubkey = q.pubkey :=
+  runCEvts_db (mintQuote_stable_db q) c evts ⟨q, h, rfl, rfl, rfl, rfl⟩
+
+def noMelt : CEvt → Bool
+  | .spawn _ (.melt ..) => false
+  | .seq (.melt ..) => false
+  | _ => true
+
+/-- The concurrent half at full strength: without internal settlements (one payment per quote at most), two
+    different requests are never both issued for one quote. -/
+def schedules_full : Prop :=
+  ∀ (evts : List CEvt) (t1 t2 : Nat) (q : Int), evts.all noMelt = true → t1 ≠ t2 →
+    mintedQuote (runCEvts (initC 0 false {}) evts) t1 = some q → mintedQuote (runCEvts (initC 0 false {}) evts) t2 = some q →
+    finishedOk (runCEvts (initC 0 false {}) evts) t1 = true → finishedOk (runCEvts (initC 0 false {}) evts) t2 = true → False
+
+namespace witness
+def o0 : BMsg := { amount := 8, ks := .known 0, b := .pt 1, witness := 0 }
+def o1 : BMsg := { amount := 8, ks := .known 0, b := .pt 2, witness := 0 }
+
+/-- W3 (K3): two mint requests with different outputs for one paid quote of 8: the second reads PAID before the first
+    writes PENDING.  16 are issued for 8 paid. -/
+def w3 : List CEvt :=
+  [.seq (.mintQuote 8 true .none false), .seq (.settle 0), .spawn 1 (.mint 0 [o0] .none), .spawn 2 (.mint 0 [o1] .none)] ++
+  List.replicate 3 (.step 1 false) ++ [.step 2 false] ++ List.replicate 5 (.step 1 false) ++ List.replicate 5 (.step 2 false)
+
+theorem w3_both_issued : finishedOk (runCEvts (initC 0 false {}) w3) 1 = true ∧ finishedOk (runCEvts (initC 0 false {}) w3) 2 = true := by decide
+theorem w3_sixteen_for_eight :
+    (runCEvts (initC 0 false {}) w3).s.w.db.sigs.map (fun s => (s.b, s.amount)) = [(1, 8), (2, 8)] ∧
+    (runCEvts (initC 0 false {}) w3).s.w.db.mintQ.map (fun q => q.amount) = [8] := by decide
+
+/-- W3' (the window F11 left): the watcher reads UNPAID, a mint request runs to the end (ISSUED), the watcher writes
+    PAID, the next mint request is issued again. -/
+def w3n : List CEvt :=
+  [.seq (.mintQuote 8 true .none false), .seq (.settle 0), .spawn 1 (.notify 0), .step 1 false, .spawn 2 (.mint 0 [o0] .none)] ++
+  List.replicate 8 (.step 2 false) ++ [.step 1 false, .spawn 3 (.mint 0 [o1] .none)] ++ List.replicate 8 (.step 3 false)
+
+theorem w3n_both_issued : finishedOk (runCEvts (initC 0 false {}) w3n) 2 = true ∧ finishedOk (runCEvts (initC 0 false {}) w3n) 3 = true := by decide
+end witness
+
+theorem schedules_full_false : ¬ schedules_full := by
+  intro h
+  exact h witness.w3 1 2 0 (by decide) (by decide) (by decide) (by decide) (by decide) (by decide)
 
 end Gonuts.Props.C03
